@@ -144,6 +144,21 @@ fn replay(path: &str) -> i32 {
                 }
             }
         }
+        Some("huge_step") => {
+            let seed = doc["seed"].as_u64().unwrap_or(0);
+            let n = doc["n"].as_u64().unwrap_or(0) as usize;
+            let r = if doc["env"].as_u64().unwrap_or(0) == 0 { extra::huge_step::<bourse_de::Env<10>>(seed, n).map(|_| ()) } else { extra::huge_step::<bourse_de::MarketEnv<3, 5>>(seed, n).map(|_| ()) };
+            match r {
+                Err((k, d)) => {
+                    println!("REPRODUCED property={} {}: {}", doc["property"].as_str().unwrap_or("?"), k, d);
+                    1
+                }
+                Ok(()) => {
+                    println!("NOT-REPRODUCED");
+                    0
+                }
+            }
+        }
         Some("c02_views_only") => {
             let h: ops::History = serde_json::from_value(doc["history"].clone()).expect("history");
             match checks_book::replay_views_only(&h) {
